@@ -38,6 +38,8 @@ func c15Content(file string, fmv, version int) string {
 		return fmt.Sprintf("---\nlayout: main\ntitle: T%d\n---\n<h1>page v%d {{ title }}</h1><template include=\"comp.vuego\"></template>", fmv, version)
 	case "comp.vuego":
 		return fmt.Sprintf("---\ncv: C%d\n---\n<i>comp v%d {{ cv }}</i>", fmv, version)
+	case "solo.vuego": // names no layout: rendered as it is when layouts/base.vuego does not exist
+		return fmt.Sprintf("---\ntitle: S%d\n---\n<p>solo v%d {{ title }}</p>", fmv, version)
 	case "layouts/base.vuego", "pages/post.vuego", "layouts/post.vuego":
 		return fmt.Sprintf("<section data-file=\"%s\" data-l=\"v%d\"><div v-html=\"content\"></div></section>", file, version)
 	default:
@@ -90,12 +92,13 @@ func c15Run(steps []c15Step, fsKind ...string) *Case {
 	fmVersion := map[string]int{}
 	mt := map[string]time.Time{}
 	hi, lo := now, now
-	for _, f := range c15Files {
+	for _, f := range append(append([]string{}, c15Files...), "solo.vuego") {
 		version[f] = 1
 		fmVersion[f] = 1
 		mt[f] = now
 		mfs[f] = &fstest.MapFile{Data: []byte(c15Content(f, 1, 1)), ModTime: now}
 	}
+	held := map[string]vuego.Template{} // template handles obtained with Load and kept across later steps
 	mfs["plain.vuego"] = &fstest.MapFile{Data: []byte("<p>plain page</p>"), ModTime: now}
 	mfs["pages/p.vuego"] = &fstest.MapFile{Data: []byte("---\nlayout: post\n---\n<p>sub page</p>"), ModTime: now}
 	lower := fstest.MapFS{}
@@ -149,6 +152,23 @@ func c15Run(steps []c15Step, fsKind ...string) *Case {
 			obs = append(obs, nil)
 		case "delete":
 			delete(mfs, s.File)
+			obs = append(obs, nil)
+		case "hold":
+			// a handle is loaded now and rendered later (a handler that keeps its template across requests)
+			func() {
+				defer func() { recover() }()
+				held[s.File] = long.Load(s.File).Fill(map[string]any{"d": 1})
+			}()
+			obs = append(obs, nil)
+		case "render-held":
+			// what the held handle itself renders is not compared (a fresh engine has no such handle); what it LEAVES BEHIND is: see the renders after it
+			if h, ok := held[s.File]; ok {
+				func() {
+					defer func() { recover() }()
+					var buf bytes.Buffer
+					_ = h.Render(context.Background(), &buf)
+				}()
+			}
 			obs = append(obs, nil)
 		case "render":
 			got, gerr := c15Call(long, s.Entry)
@@ -275,6 +295,28 @@ func runC15(r *Run, replay *Case) {
 				for _, m2 := range muts {
 					if r.Thorough() || (m.File == m2.File) {
 						r.Add(c15Run([]c15Step{{Op: "render", Entry: e1}, m, {Op: "render", Entry: e2}, m2, {Op: "render", Entry: e1}, {Op: "render", Entry: e2}}))
+					}
+				}
+			}
+		}
+	}
+	// handles kept across edits: Load now, edit (or delete, or break) the file, render the kept handle, then render normally — with and
+	// without layouts (the kept handle's bytes must not become what later renders are answered with)
+	for _, page := range []string{"solo.vuego", "page.vuego"} {
+		for _, noBase := range []bool{true, false} {
+			for _, m := range []c15Step{{Op: "edit", File: page, Mtime: "advance"}, {Op: "edit-fm", File: page, Mtime: "advance"}, {Op: "edit-body", File: page, Mtime: "back"}, {Op: "invalid", File: page, Mtime: "advance"}, {Op: "delete", File: page}, {Op: "touch", File: page}} {
+				for _, e := range []string{"template-render@" + page, "render-file@" + page, "vue-render@" + page} {
+					for _, warm := range []bool{false, true} {
+						var steps []c15Step
+						if noBase {
+							steps = append(steps, c15Step{Op: "delete", File: "layouts/base.vuego"})
+						}
+						if warm {
+							steps = append(steps, c15Step{Op: "render", Entry: e})
+						}
+						steps = append(steps, c15Step{Op: "hold", File: page}, m, c15Step{Op: "render-held", File: page}, c15Step{Op: "render", Entry: e}, c15Step{Op: "render", Entry: e})
+						r.Add(c15Run(steps))
+						r.Add(c15Run(steps, "overlay"))
 					}
 				}
 			}
